@@ -66,10 +66,11 @@ def gen_random(cs, rnd, n):
                     "runs": [{"argv": fargv + ["--unique"], "stdin": "", "files": files}, {"argv": fargv, "stdin": "", "files": files}]})
         if i % 6 == 2:
             # selections computed by functions: equal results are equal keys whatever produced them
-            e = rnd.choice(["(round .p)", "(floor .p)", "(ceil .p)", "(abs .p)", "(+ .p 0)", "(* .p 1)", "(/ .p 1)", "(- .p 0)", "(round (* .p 10))", "(parse (stringify .p))",
+            e = rnd.choice(["(+ .p .p2)", "(+ .p .p2)", "(- .p .p2)", "(* .p .p2)", "(sum (push [] .p .p2))", "(round .p)", "(floor .p)", "(ceil .p)", "(abs .p)", "(+ .p 0)", "(* .p 1)", "(/ .p 1)", "(- .p 0)", "(round (* .p 10))", "(parse (stringify .p))",
                             "(as_number .p)", "(size (stringify .p))", "(push [] (round .p))", "(first [.p])".replace("[.p]", "(push [] .p)")])
             nums = ["1", "1.0", "1.2", "0.7", "2", "2.5", "1.5", "3", "-1", "-1.2", "10", "9.6", "1e0", "12e-1"]
-            data = b"".join(b'{"p": %s, "q": %d}\n' % (rnd.choice(nums).encode(), rnd.randrange(2)) for _ in range(rnd.choice([6, 12, 24])))
+            halves = ["0.5", "0", "1", "1.5", "0.25", "0.75", "2", "-0.5", "1.0", "5e-1"]        # whole results reached through integers and through fractions
+            data = b"".join(b'{"p": %s, "p2": %s, "q": %d}\n' % (rnd.choice(nums + halves).encode(), rnd.choice(halves).encode(), rnd.randrange(2)) for _ in range(rnd.choice([6, 12, 24])))
             sel = ["--select=%s =r" % e] + (["--select=.q =q"] if rnd.random() < 0.5 else [])
             cs.add({"kind": "rel", "rel": "unique", "cfg": PL.mkcfg(unique=True), "input": [], "json": True,
                     "runs": [{"argv": sel + ["--unique"], "stdin": hexs(data)}, {"argv": sel, "stdin": hexs(data)}]})
